@@ -76,8 +76,9 @@ pub trait Handler: Send + Sync {
     fn adopted(&self, role: &'static str) {}
     /// A background thread of the store is about to exit.
     fn retired(&self, role: &'static str) {}
-    /// Periodic coordinator gate, asked after every sleep.
-    fn tick(&self) -> Tick {
+    /// Periodic coordinator gate, asked after every sleep. May park the thread;
+    /// `shutdown()` tells whether the store is closing.
+    fn tick(&self, shutdown: &dyn Fn() -> bool) -> Tick {
         Tick::Run
     }
     /// The timestamp a call resolved for itself.
@@ -160,8 +161,8 @@ pub fn note(name: &'static str, a: u64, b: u64) {
 }
 
 #[inline]
-pub fn tick() -> Tick {
-    current().map_or(Tick::Run, |handler| handler.tick())
+pub fn tick(shutdown: &dyn Fn() -> bool) -> Tick {
+    current().map_or(Tick::Run, |handler| handler.tick(shutdown))
 }
 
 #[inline]
